@@ -1,6 +1,8 @@
 package main
 
 import (
+	"verif/harness/internal/c15"
+	"verif/harness/internal/c02"
 	"verif/harness/internal/c07"
 	"verif/harness/internal/c09"
 	"verif/harness/internal/c18"
@@ -13,6 +15,8 @@ import (
 )
 
 func init() {
+	checks["C15"] = c15.Run
+	checks["C02"] = c02.Run
 	checks["C07"] = c07.Run
 	workers["c07"] = c07.Worker
 	checks["C09"] = c09.Run
